@@ -282,7 +282,7 @@ pub fn run(ctx: &Ctx) -> i32 {
     part
   });
   // deep tier: ellipses a fraction of a cell to a few tens of cells across, mid and large depths
-  let deep_depths: Vec<u8> = if quick { vec![9, 14, 22] } else { vec![7, 9, 11, 14, 17, 20, 22, 25, 29] };
+  let deep_depths: Vec<u8> = if quick { vec![9, 14, 22, 27, 29] } else { vec![7, 9, 11, 14, 17, 20, 22, 25, 29] };
   let djobs: Vec<(u8, usize)> = deep_depths.iter().flat_map(|&d| (0..cs.len()).map(move |ci| (d, ci))).collect();
   let deep_part = par_jobs(djobs.len(), |j| {
     let (d, ci) = djobs[j];
